@@ -11,9 +11,10 @@ from .instance import INTRINSICS_DOC
 
 TIERS = {
     # N = arena slots for the inductive step; max_expired = physically present expired entries at operation time
-    'quick': {'N': 5, 'max_expired': 1, 'N_heavy': 4, 'timeout_ms': 300000},
-    'thorough': {'N': 6, 'max_expired': 2, 'N_heavy': 5, 'timeout_ms': 1200000},
+    'quick': {'N': 5, 'max_expired': 1, 'N_heavy': 4, 'N_readonly': 7, 'timeout_ms': 300000},
+    'thorough': {'N': 6, 'max_expired': 2, 'N_heavy': 5, 'N_readonly': 8, 'timeout_ms': 1200000},
 }
+READ_ONLY = {'index_after', 'index_before', 'first_index_less', 'first_index_less_by', 'value_by_index', 'get_value', 'is_empty'}
 HEAVY = {'C10', 'C02', 'C11', 'C18'}        # properties that run many harnesses: one size smaller in the quick tier
 
 
@@ -30,7 +31,10 @@ def run(pid, tier, seed, procs=None):
         N = cfg['N_heavy'] + 1 if pid in ('C02', 'C11') else cfg['N_heavy']
     step_specs = []
     for kind, op in plan.steps_for(pid):
-        spec = {'kind': kind, 'op': op, 'N': N, 'timeout_ms': cfg['timeout_ms'], 'check_callbacks': pid == 'C18', 'tags': plan.tags_for(pid)}
+        n_op = N
+        if kind in ('map', 'set') and op in READ_ONLY and pid not in HEAVY:
+            n_op = cfg['N_readonly']       # read-only operations are cheap: larger arenas (rarer shapes, e.g. a 3-deep inner spine needs 6 entries)
+        spec = {'kind': kind, 'op': op, 'N': n_op, 'timeout_ms': cfg['timeout_ms'], 'check_callbacks': pid == 'C18', 'tags': plan.tags_for(pid)}
         if kind == 'key':
             spec['max_expired'] = cfg['max_expired']
         step_specs.append(spec)
@@ -40,19 +44,42 @@ def run(pid, tier, seed, procs=None):
     step_jobs = []
     for sp in step_specs:
         step_jobs += jobs.expand(sp, mir, seed)
-    hist_jobs = [{'mir': mir, 'kind': k, 'template': t, 'seed': seed, 'timeout_ms': cfg['timeout_ms'], 'tags': plan.tags_for(pid)} for k, t in plan.histories_for(pid, tier)]
+    hist_jobs = [{'mir': mir, 'kind': k, 'template': t, 'capacity': cap, 'seed': seed, 'timeout_ms': cfg['timeout_ms'], 'tags': plan.tags_for(pid)}
+                 for k, t, cap in plan.histories_for(pid, tier)]
+    lemma_jobs = [{'kind': k, 'N': N} for k in ('map', 'key')] if pid == 'C02' else []
+    audit = None
+    if pid == 'C18':
+        from .mir import cleanup_audit
+        bad, nblocks = cleanup_audit(jobs.program(mir), ['map::tree', 'set::tree', 'key::tree', 'map::pool', 'set::pool', 'key::pool'])
+        audit = {'cleanup_blocks_audited': nblocks, 'offending': bad[:10]}
     common.log(f'[{pid}] {len(step_jobs)} step cubes, {len(hist_jobs)} history templates, N={N}, tier={tier}')
-    all_jobs = [('step', j) for j in step_jobs] + [('hist', j) for j in hist_jobs]
+    all_jobs = [('step', j) for j in step_jobs] + [('hist', j) for j in hist_jobs] + [('lemma', j) for j in lemma_jobs]
     results = run_mixed(all_jobs, procs)
     step_res = [r for k, r in results if k == 'step']
     hist_res = [r for k, r in results if k == 'hist']
-    return finish(pid, tier, seed, t0, mirhash, mir_s, N, cfg, step_res, hist_res)
+    lemmas = [x for k, r in results if k == 'lemma' for x in r]
+    out = finish(pid, tier, seed, t0, mirhash, mir_s, N, cfg, step_res, hist_res, lemmas, audit)
+    if out.get('unconfirmed') and tier != 'escalate':
+        # a step counterexample that no history of the tier's depth reproduces: search deeper histories before giving up
+        seen = {(j['kind'], tuple(j['template']), j.get('capacity', 0)) for j in hist_jobs}
+        extra = [{'mir': mir, 'kind': k, 'template': t, 'capacity': cap, 'seed': seed, 'timeout_ms': cfg['timeout_ms'], 'tags': plan.tags_for(pid)}
+                 for k, t, cap in plan.histories_for(pid, 'escalate') if (k, tuple(t), cap) not in seen]
+        kinds = {k for k, _ in out['unconfirmed']}
+        extra = [j for j in extra if j['kind'] in kinds]
+        common.log(f'[{pid}] {len(out["unconfirmed"])} unconfirmed step counterexamples: escalating to {len(extra)} deeper history templates')
+        more = run_mixed([('hist', j) for j in extra], procs)
+        hist_res = hist_res + [r for _, r in more]
+        out = finish(pid, tier, seed, t0, mirhash, mir_s, N, cfg, step_res, hist_res, lemmas, audit)
+    return out
 
 
 def _run_one(x):
     kind, job = x
     if kind == 'step':
         return kind, jobs.run_job(job)
+    if kind == 'lemma':
+        from .lemmas import lemma_job
+        return kind, lemma_job(job)
     return kind, run_history_job(job)
 
 
@@ -67,11 +94,16 @@ def run_mixed(all_jobs, procs=None):
     return out
 
 
-def finish(pid, tier, seed, t0, mirhash, mir_s, N, cfg, step_res, hist_res):
+def finish(pid, tier, seed, t0, mirhash, mir_s, N, cfg, step_res, hist_res, lemmas=(), audit=None):
     tags = plan.tags_for(pid)
     mine = lambda tag: any(tag.startswith(t) for t in tags) or tag.startswith('C10:')     # a crash inside the property's own harness violates it too
     agg = jobs.merge_results(step_res)
     inconclusive = []
+    if audit and audit['offending']:
+        inconclusive.append(f'cleanup path touches non-local state (unwinding after a callback panic is not modelled): {audit["offending"][:2]}')
+    for l in lemmas:
+        if l['result'] != 'unsat':
+            inconclusive.append(f'invariant lemma {l["lemma"]} ({l["kind"]}, N={l["N"]}): {l["result"]}')
     # ---- collect step violations of this property
     step_viol = []
     for key, a in agg.items():
@@ -115,14 +147,37 @@ def finish(pid, tier, seed, t0, mirhash, mir_s, N, cfg, step_res, hist_res):
     for u in unconfirmed_hist:
         inconclusive.append(f'history counterexample for {u["tag"]} does not reproduce natively (encoding suspect): {json.dumps(u["history"])[:300]}')
     # ---- step violations must be confirmed by a replayed history with the same tag and operation
+    # ---- step counterexamples without a confirming history: guided native search for a history reaching the pre-state
+    def is_conf(kind, op):
+        ck = {(c['kind'], c['op']) for c in confirmed}
+        return ((kind, op) in ck or (op == 'is_part_of_the_tree' and (kind, 'into_ordered_vec') in ck)
+                or (common.STEP_TO_HISTORY_OP.get(op), kind) in {(o2, k2) for k2, o2 in ck})
+    tried = {}
+    for kind, op, v in step_viol:
+        if is_conf(kind, op) or tried.get((kind, op), 0) >= 4:
+            continue
+        tried[(kind, op)] = tried.get((kind, op), 0) + 1
+        try:
+            h = common.guided_history(kind, op, v)
+        except Exception as ex:      # noqa
+            common.log(f'[{pid}] guided search failed: {ex!r}')
+            h = None
+        if h is None:
+            continue
+        nat = [common.run_replay(h, 'dev'), common.run_replay(h, 'release')]
+        hit = [(p['profile'], f) for p in nat for f in p['findings'] if mine(f[1])]
+        if hit:
+            hop = h['ops'][-1]['op']
+            confirmed.append({'key': finding_key(v['tag'], kind, hop), 'tag': v['tag'], 'kind': kind, 'op': hop, 'history': h,
+                              'native': [f'{prof}: op#{f[0]} {f[1]} {f[2]}' for prof, f in hit][:4], 'via': 'guided-search'})
     conf_keys = {(c['kind'], c['op']) for c in confirmed}
+    unconfirmed = []
     for kind, op, v in step_viol:
         # a step counterexample counts as confirmed when a replayed history violates the same property through the same operation
         # (tags may differ in detail: e.g. obligation classes bounds/assert/unwind show up natively as abort/panic/hang)
-        ok = (kind, op) in conf_keys or (op == 'is_part_of_the_tree' and (kind, 'into_ordered_vec') in conf_keys) \
-            or (op in ('index_after', 'index_before') and (kind, 'pred_' + op[6:]) in conf_keys) \
-            or (op in ('delete_by_index', 'value_by_index', 'value_by_index_mut', 'first_index_less') and any(k2 == kind and o2.startswith('pred_') for k2, o2 in conf_keys))
+        ok = is_conf(kind, op) or (op in ('first_index_less', 'first_index_less_by') and any(k2 == kind and o2.startswith('pred_') for k2, o2 in conf_keys))
         if not ok:
+            unconfirmed.append((kind, op))
             inconclusive.append(f'step counterexample {v["tag"]} in {kind}::{op} (N={N}) is not confirmed by any replayed public-API history '
                                 f'within the history bound: pre-state may be unreachable (invariant too weak) or the bound too small; args={v.get("args")}')
     # ---- known findings
@@ -140,7 +195,7 @@ def finish(pid, tier, seed, t0, mirhash, mir_s, N, cfg, step_res, hist_res):
         else:
             new_viol.append(c)
     # ---- replay artefacts
-    rdir = os.path.join(common.VERIF, 'evidence', 'replay')
+    rdir = os.path.join(common.evidence_dir(), 'replay')
     os.makedirs(rdir, exist_ok=True)
     for i, c in enumerate(new_viol):
         path = os.path.join(rdir, f'{pid}-{i}.json')
@@ -184,7 +239,7 @@ def finish(pid, tier, seed, t0, mirhash, mir_s, N, cfg, step_res, hist_res):
                            'transitions = obligations discharged by the solver (memory-safety/panic/unwinding obligations + tagged post-conditions)',
             'engine': 'mirsym: symbolic execution of rustc MIR + z3 (QF_BV), MIR regenerated from /repo working tree',
             'mir_sha256': mirhash, 'mir_dump_s': round(mir_s, 1),
-            'bounds': {'arena_slots_N': N, 'max_entries': N - 1, 'key_bits': 8, 'expiration_bits': 8, 'value_bits': 8,
+            'bounds': {'arena_slots_N': N, 'arena_slots_N_read_only_ops': cfg['N_readonly'], 'max_entries': N - 1, 'key_bits': 8, 'expiration_bits': 8, 'value_bits': 8,
                        'max_expired_entries_at_op_time': cfg['max_expired'], 'history_templates': len(hist_res),
                        'history_max_inserts': 4 if tier == 'thorough' else 3,
                        'outside': 'arenas with more slots than N; histories longer than the templates; V with side-effecting Clone/Drop; allocation failure'},
@@ -194,6 +249,7 @@ def finish(pid, tier, seed, t0, mirhash, mir_s, N, cfg, step_res, hist_res):
                                for a in agg.values()],
             'history_runs': {'templates': len(hist_res), 'paths': hist_paths, 'final_queries': hist_queries, 'obligations': hist_obl, 'cpu_s': round(hist_s, 1)},
             'post_conditions_discharged': post_tags, 'obligation_classes': by_kind,
+            'invariant_lemmas': list(lemmas), 'unwind_cleanup_audit': audit,
             'functions_encoded': fns, 'queries_discharged': queries + hist_queries, 'solver_time_s': round(solver_s, 1),
             'confirmed_findings': [{'key': c['key'], 'history': c['history'], 'native': c['native']} for c in confirmed][:6],
             'inconclusive': inconclusive[:10],
@@ -209,7 +265,7 @@ def finish(pid, tier, seed, t0, mirhash, mir_s, N, cfg, step_res, hist_res):
         common.log(f'[{pid}] INCONCLUSIVE: {m}')
     common.log(f'[{pid}] paths={paths}+{hist_paths} obligations={obligations}+{hist_obl} confirmed={len(confirmed)} new={len(new_viol)} inconclusive={len(inconclusive)} wall={time.time()-t0:.0f}s')
     rc = 1 if new_viol else (2 if inconclusive else 0)
-    return {'rc': rc, 'lines': lines, 'ev': ev}
+    return {'rc': rc, 'lines': lines, 'ev': ev, 'unconfirmed': unconfirmed}
 
 
 def replay_file(path):
